@@ -141,6 +141,7 @@ func (n *Node) start() {
 		w.Effect("panic-callback %s %v", n.Name, r)
 	})}, n.Cfg.Opts...)
 	n.Net = gsnet.NewFromLibp2pHost(n.Host)
+	w.NameObject(n.Net, n.Name)
 	n.GS = gsimpl.New(n.ctx, n.Net, n.Store.LinkSystem(), opts...)
 	n.Impl = n.GS.(*gsimpl.GraphSync)
 	gs := n.GS
